@@ -194,3 +194,78 @@ def encode(r, T, v, tag=None):
     if k == 'choice':
         return encode(r, T[1][v[1]], v[2])
     raise ValueError(T)
+
+
+# ---------------------------------------------------------------------------------------------
+# the one member of BER(T, v) that is DER (X.690 clause 10, 11): an independent reference in Python
+
+def _dlen(n):
+    if n < 128:
+        return bytes([n])
+    b = n.to_bytes((n.bit_length() + 7) // 8, 'big')
+    return bytes([0x80 | len(b)]) + b
+
+
+def _dtlv(cls, cons, num, content):
+    return ident(cls, cons, num) + _dlen(len(content)) + content
+
+
+def _first_tag(e):
+    """(class, number) an encoding starts with"""
+    cls, num = e[0] & 0xc0, e[0] & 0x1f
+    if num == 31:
+        num, i = 0, 1
+        while True:
+            num = (num << 7) | (e[i] & 0x7f)
+            if not e[i] & 0x80: break
+            i += 1
+    return (cls, num)
+
+
+def der(T, v, tag=None):
+    """the distinguished encoding of v : T.  Raises ValueError where the reference declines (ANY, decimal REAL)."""
+    k = T[0]
+    if k == 'exp':
+        cls, num = tag if tag else (T[1][0], T[1][2])
+        return _dtlv(cls, True, num, der(T[2], v))
+    if k == 'imp':
+        return der(T[2], v, tag if tag else (T[1][0], T[1][2]))
+    cls, num = tag if tag else (outer(T) or (None, None))
+    if k == 'bool': return _dtlv(cls, False, num, b'\xff' if v[1] else b'\x00')
+    if k in ('int', 'enum'): return _dtlv(cls, False, num, int_content(v[1]))
+    if k == 'null': return _dtlv(cls, False, num, b'')
+    if k == 'oid':
+        a = v[1]
+        return _dtlv(cls, False, num, b''.join(b128(x) for x in (40 * a[0] + a[1],) + tuple(a[2:])))
+    if k == 'real':
+        x = v[1]
+        if x == 'inf': c = b'\x40'
+        elif x == '-inf': c = b'\x41'
+        elif x[1] != 2: raise ValueError('decimal REAL')
+        else: c = real_content(x[0], x[2])
+        return _dtlv(cls, False, num, c)
+    if k == 'bits':
+        pad, body = bits_bytes(list(v[1]))
+        return _dtlv(cls, False, num, bytes([pad]) + body)
+    if k == 'octs': return _dtlv(cls, False, num, bytes(v[1]))
+    if k == 'str':
+        from harness.universe import str_encoding
+        return _dtlv(cls, False, num, v[1].encode(str_encoding(T)) if v[0] == 'chars' else bytes(v[1]))
+    if k == 'seqof':
+        return _dtlv(cls, True, num, b''.join(der(T[1], x) for x in v[1]))
+    if k == 'setof':
+        parts = [der(T[1], x) for x in v[1]]
+        width = max([len(p) for p in parts] or [0])
+        return _dtlv(cls, True, num, b''.join(sorted(parts, key=lambda p: p + b'\x00' * (width - len(p)))))
+    if k in ('seq', 'set'):
+        parts = []
+        for (p, ft), fv in zip(T[1], v[1]):
+            if fv is None or (isinstance(p, tuple) and default_equal(ft, fv, p[1])):
+                continue
+            parts.append(der(ft, fv))
+        if k == 'set':
+            parts.sort(key=_first_tag)
+        return _dtlv(cls, True, num, b''.join(parts))
+    if k == 'choice':
+        return der(T[1][v[1]], v[2])
+    raise ValueError(T[0])
